@@ -28,6 +28,15 @@
 (*                               FALSE: decorative values are evaluated first and     *)
 (*                               everything is appended only if all succeeded         *)
 (*                                                                                    *)
+(* AsFound_NoSweepAtBigTolerance  The error measure starts at 1. before the first sweep *)
+(*                               (`relative_error = 1.`).  With a tolerance >= 1 (state *)
+(*                               field `big`: block line Err_Tolerance = 2.0 or          *)
+(*                               ParameterErrorTolerance = 2.0) the start value already  *)
+(*                               meets the tolerance.  TRUE: the loop condition is tested*)
+(*                               before the first sweep, so NO sweep is made and the     *)
+(*                               values of the previous period are appended as solved.   *)
+(*                               FALSE: at least one sweep is made in every period.      *)
+(*                                                                                    *)
 (* Every action is written through a pure operator on a state record (`*Op`); the     *)
 (* trace specification Solver_Trace composes the same operators.                      *)
 EXTENDS Integers, Sequences, TLC, FiniteSets
@@ -35,7 +44,8 @@ EXTENDS Integers, Sequences, TLC, FiniteSets
 CONSTANTS Cap,       \* MaxIterations
           Horizon,   \* MaxTime
           AsFound_NaNExitsLoop,
-          AsFound_DecorativeAfterAppend
+          AsFound_DecorativeAfterAppend,
+          AsFound_NoSweepAtBigTolerance
 
 Classes == {"sim", "lag", "deco", "exo"}
 NonExo == {"sim", "lag", "deco"}
@@ -60,20 +70,28 @@ LoopContinues(errc) ==
     IF AsFound_NaNExitsLoop THEN errc = "gt_tol"           \* relative_error > err_toler
     ELSE errc # "le_tol"                                   \* not (relative_error <= err_toler)
 
+(* the test made at the top of the loop, in state st *)
+LoopContinuesIn(st) ==
+    IF st.sweep = 0 /\ ~AsFound_NoSweepAtBigTolerance THEN TRUE      \* a first sweep is always made
+    ELSE LoopContinues(st.errc)
+
 Completed == IF AsFound_DecorativeAfterAppend THEN "decorating" ELSE "appended"
 
-InitState(h) == [step |-> 0, sweep |-> 0, errc |-> "gt_tol", evalErr |-> FALSE, iter |-> "finite",
-                 status |-> "idle",
+InitState(h, big) ==
+                [step |-> 0, sweep |-> 0, errc |-> "gt_tol", evalErr |-> FALSE, iter |-> "finite",
+                 status |-> "idle", big |-> big,
                  len |-> [c \in Classes |-> IF c = "exo" THEN h + 1 ELSE 1]]
 
 BeginStepEnabled(st, h) == st.status \in {"idle", Completed} /\ st.step < h
-BeginStepOp(st) == [st EXCEPT !.step = @ + 1, !.sweep = 0, !.errc = "gt_tol", !.evalErr = FALSE,
+\* relative_error = 1.: above a tolerance < 1, within a tolerance >= 1
+BeginStepOp(st) == [st EXCEPT !.step = @ + 1, !.sweep = 0,
+                              !.errc = IF st.big THEN "le_tol" ELSE "gt_tol", !.evalErr = FALSE,
                               !.iter = "finite", !.status = "iterating"]
 
 SweepEnabled(st, cap, o) ==
     /\ st.status = "iterating"
     /\ st.sweep <= cap                 \* otherwise the cap test has raised
-    /\ LoopContinues(st.errc)
+    /\ LoopContinuesIn(st)
     /\ (st.iter # "finite" => o \in {"overflow", "overflow_nan", "other"})
 SweepOp(st, o) ==
     IF o = "other" THEN [st EXCEPT !.status = "raised_other"]
@@ -85,7 +103,7 @@ SweepOp(st, o) ==
                                [] OTHER -> "nan"]
 
 (* m sweeps of outcome "notyet" in one go (used by the trace specification) *)
-JumpEnabled(st, cap, m) == st.status = "iterating" /\ st.iter = "finite" /\ (m > 0 => LoopContinues(st.errc))
+JumpEnabled(st, cap, m) == st.status = "iterating" /\ st.iter = "finite" /\ (m > 0 => LoopContinuesIn(st))
                            /\ st.sweep + m - 1 <= cap
 JumpOp(st, m) == IF m = 0 THEN st
                  ELSE [st EXCEPT !.sweep = @ + m, !.evalErr = FALSE, !.errc = "gt_tol"]
@@ -95,7 +113,7 @@ RaiseConvergenceEnabled(st, cap) == CapHit(st, cap) /\ ~st.evalErr
 RaiseValueEnabled(st, cap) == (CapHit(st, cap) /\ st.evalErr) \/ (st.status = "exited" /\ st.evalErr)
 RaiseOp(st, kind) == [st EXCEPT !.status = kind]
 
-ExitLoopEnabled(st, cap) == st.status = "iterating" /\ st.sweep <= cap /\ ~LoopContinues(st.errc)
+ExitLoopEnabled(st, cap) == st.status = "iterating" /\ st.sweep <= cap /\ ~LoopContinuesIn(st)
 ExitLoopOp(st) == [st EXCEPT !.status = "exited"]
 
 Bump(len, S) == [c \in Classes |-> IF c \in S THEN len[c] + 1 ELSE len[c]]
@@ -123,21 +141,24 @@ FinishOp(st) == [st EXCEPT !.status = "done"]
 
 (* ---------------------------------------------------------------------------------- *)
 VARIABLES step, sweep, errc, evalErr, iter, status, len,
+          big,      \* the tolerance of this run is >= 1
           hist      \* history: one record per period (what the replay driver realises)
 
-vars == << step, sweep, errc, evalErr, iter, status, len, hist >>
+vars == << step, sweep, errc, evalErr, iter, status, len, big, hist >>
 
 St == [step |-> step, sweep |-> sweep, errc |-> errc, evalErr |-> evalErr, iter |-> iter,
-       status |-> status, len |-> len]
+       status |-> status, len |-> len, big |-> big]
 
 Set(st) == /\ step' = st.step /\ sweep' = st.sweep /\ errc' = st.errc /\ evalErr' = st.evalErr
-           /\ iter' = st.iter /\ status' = st.status /\ len' = st.len
+           /\ iter' = st.iter /\ status' = st.status /\ len' = st.len /\ big' = st.big
 
 NewPeriod == [n |-> 0, tr |-> FALSE, last |-> "none", exit |-> "none", deco |-> "none"]
 Cur == Len(hist)
 
-Init == LET s0 == InitState(Horizon)
-        IN /\ step = s0.step /\ sweep = s0.sweep /\ errc = s0.errc /\ evalErr = s0.evalErr
+Init == \E b \in BOOLEAN :
+        LET s0 == InitState(Horizon, b)
+        IN /\ big = b
+           /\ step = s0.step /\ sweep = s0.sweep /\ errc = s0.errc /\ evalErr = s0.evalErr
            /\ iter = s0.iter /\ status = s0.status /\ len = s0.len /\ hist = << >>
 
 BeginStep == /\ BeginStepEnabled(St, Horizon)
@@ -181,7 +202,8 @@ Next == \/ BeginStep
 Spec == Init /\ [][Next]_vars
 
 (* ---------------------------------------------------------------------------------- *)
-TypeOK == /\ step \in 0..Horizon /\ sweep \in 0..(Cap + 1)
+TypeOK == /\ big \in BOOLEAN
+          /\ step \in 0..Horizon /\ sweep \in 0..(Cap + 1)
           /\ errc \in ErrClasses /\ iter \in IterClasses /\ evalErr \in BOOLEAN
           /\ status \in Statuses
           /\ \A c \in Classes : len[c] \in 1..(Horizon + 1)
@@ -190,6 +212,11 @@ TypeOK == /\ step \in 0..Horizon /\ sweep \in 0..(Cap + 1)
 (* with finite iterates and without evaluation error in the last sweep                  *)
 C02_SolvedOnlyIfConverged ==
     status \in {"appended", "decorating", "done"} => errc = "le_tol" /\ iter = "finite" /\ ~evalErr
+
+(* C02: nothing is reported as solved without a sweep over the equations (else the residual is not *)
+(* related to the tolerance at all)                                                             *)
+C02_SolvedOnlyAfterSweep ==
+    status \in {"exited", "appended", "decorating"} => sweep >= 1
 
 (* C11 *)
 C11_BoundedSweeps == sweep <= Cap + 1
@@ -217,7 +244,7 @@ RECURSIVE Iterate(_, _)
 Iterate(st, m) == IF m = 0 THEN st ELSE Iterate(SweepOp(st, "notyet"), m - 1)
 JumpIsIteratedSweep ==
     \A m \in 0..(Cap + 1) :
-        LET s0 == BeginStepOp(InitState(Horizon))
+        LET s0 == BeginStepOp(InitState(Horizon, FALSE))
         IN /\ JumpOp(s0, m) = Iterate(s0, m)
            /\ JumpEnabled(s0, Cap, m) <=> \A j \in 0..(m - 1) : SweepEnabled(Iterate(s0, j), Cap, "notyet")
 =============================================================================
